@@ -283,7 +283,9 @@ def run(ctx):
                 "fact_modelled_source_unchanged", "fact_store_wiring", "deactivated_resolves_active_by_time_witness",
                 "fact_add_commits_index_before_event_transaction", "two_tx_add_needs_no_read_your_writes",
                 "two_tx_add_order_independent_on_committed_reads", "one_tx_add_order_dependent_witness",
-                "fact_event_list_read_modify_write_in_one_transaction", "overlapping_atomic_adds_commute", "stale_read_add_loses_update_witness"]
+                "fact_event_list_read_modify_write_in_one_transaction", "overlapping_atomic_adds_commute", "stale_read_add_loses_update_witness",
+                "rolled_back_add_keeps_the_shelves", "redelivery_after_rollback_is_the_undisturbed_add",
+                "stale_cache_entries_are_confined_and_repaired", "rolled_back_add_leaves_stale_cache_witness"]
     for r in required:
         if not any(t.endswith("Props." + r) for t in thms):
             ctx.oblige("thm-present:" + r, False, "theorem missing or its module does not build")
@@ -337,12 +339,17 @@ def run(ctx):
     seq_of = {}          # line index -> index of the seq op it belongs to
     raw_n = 0
     rfault_n = 0
+    stale_n = 0
+    stale_listed = 0
     last_seq = None
     for i, line in enumerate(impl):
         op = json.loads(ops[i]) if i < len(ops) and ops[i] else {}
         kind = "again"
-        if op.get("op") in ("raw", "rfault"):   # the literal shelves: order-dependent (intermediate merged documents stay behind); read faults
+        if op.get("op") in ("raw", "rfault", "stale"):   # the literal shelves: order-dependent (intermediate merged documents stay behind); read faults; cache after a rolled-back Add
             seq_of[i] = last_seq
+            if op.get("op") == "stale":
+                stale_n += line.count("=H") + line.count("=-")
+                stale_listed += line.count("=H")
             raw_n += op.get("op") == "raw"
             rfault_n += line.count(":db") + line.count(":same") + line.count("=db") + line.count("=same") if op.get("op") == "rfault" else 0
             continue
@@ -446,6 +453,15 @@ def run(ctx):
                     mm = re.search(r"(\S*" + tok + ")", line)
                     flag("read-fault", "read-storage-error-" + tok.lower(), f"a read entry point under a failing shelf Get: {mm.group(1) if mm else tok} ({line[:50]}..)", i)
                     break
+        elif op.get("op") == "stale":
+            # an Add that returned an error changed nothing durable: both counters read the same before and after it,
+            # and Conflicted() does not panic
+            for ent in line[len("stale "):].split(" | "):
+                mm = re.match(r"^(\S+)=(\S+) cc=(\d+)>(\d+) dc=(\d+)>(\d+)$", ent)
+                if not mm or mm.group(2) == "panic":
+                    flag("rolled-back-add", "conflicted-iterator-unusable-after-rolled-back-add", f"after an Add whose second write transaction was rolled back: {ent[:80]}", i)
+                elif mm.group(3) != mm.group(4) or mm.group(5) != mm.group(6):
+                    flag("rolled-back-add", "rolled-back-add-changes-a-counter", f"an Add that returned an error changed ConflictedCount / DocumentCount: {ent[:100]}", i)
         elif op.get("op") == "raw":
             if seq_of.get(i) is not None:
                 check_raw_line(json.loads(ops[seq_of[i]]), impl[seq_of[i]], line, i, flag)
@@ -502,5 +518,7 @@ def run(ctx):
                        "distinct_nontrivial = distinct (set, arrival, failure codes) with >=2 events")
     feats["raw-shelf-dumps"] = raw_n
     feats["read-calls-under-a-failing-get"] = rfault_n
+    feats["cache-observations-right-after-a-rolled-back-add"] = stale_n
+    feats["of-which-the-did-is-listed-as-conflicted"] = stale_listed
     ctx.cov["input_distribution"] = {"set_size_histogram": dict(sorted(sizes.items())), "features": dict(feats), "event_sets": len(by_set)}
     ctx.cov["samples"] = [json.loads(ops[0])["arrival"] if ops and ops[0] else [], impl[0][:400] if impl else ""]
